@@ -763,6 +763,29 @@ func (c *Ctx) err5() {
 			}
 		}
 		ramp.done(1, "the stored wait is a constant multiple of the clamped wait")
+		// … and that channel is closed indeed, by the package initialisation
+		isClosed := false
+		for f := range c.P.AllFuncs {
+			if f.Pkg != c.P.Root || !strings.HasPrefix(f.Name(), "init") {
+				continue
+			}
+			for _, b := range f.Blocks {
+				for _, ins := range b.Instrs {
+					if call, ok := ins.(*ssa.Call); ok && isBuiltin2(&call.Call, "close") {
+						if u, ok := call.Call.Args[0].(*ssa.UnOp); ok {
+							if g, ok := u.X.(*ssa.Global); ok && g.Name() == "closed" {
+								isClosed = true
+							}
+						}
+					}
+				}
+			}
+		}
+		if isClosed {
+			c.S.OK("ERR-5", "ERR-5|init|no-backoff-channel-is-closed", "", "init", "close(closed) runs at package initialisation", true)
+		} else {
+			c.S.Bad("ERR-5", "ERR-5|init|no-backoff-channel-is-closed", c.P.Pos(rb.Pos()), "init", "the channel ReadBackoff returns for 'no backoff' is never closed: a read loop that waits on it after a delivered message stops for good", nil)
+		}
 		nb.done(1, "the closed channel is returned only behind err == nil or c.bigMessage != nil")
 		a.done(1, "nil only behind errors.Is(err, ErrClosed)")
 		t.done(2, "every returned channel is closed by a timer of bounded duration")
